@@ -233,8 +233,26 @@ def measure_points(magpy, obj, items, kap):
     (der.norm = [use rho^5, num, den, power of pi, power of lambda, power of mu0]), in units of 1e-8 of der.gross"""
     mu0 = float(magpy.mu_0)
     out = []
+    dummy = {"meas": {"q": [0, 0], "fin": True}, "meas8": 0, "qerr": 0, "qerr1": 0, "qppm": [0, 0], "sub": 0, "amp": {"big": False, "q": [0, 0]}}
+    # mean-value law: the field at a lattice point and at its six lattice neighbours c +- h e_k (global lattice axes),
+    # quantized in units of 1e-8 of the largest component among the seven vectors
+    STEN = np.array([[0, 0, 0], [1, 0, 0], [-1, 0, 0], [0, 1, 0], [0, -1, 0], [0, 0, 1], [0, 0, -1]], dtype=float)
     for field in ("B", "H"):
-        sel = [it for it in items if it[1]["pt"]["field"] == field]
+        sel = [it for it in items if it[1]["pt"]["field"] == field and it[1]["pt"]["kind"] == "harmonic"]
+        if not sel:
+            continue
+        P = np.concatenate([np.array(it[1]["pt"]["obs"], dtype=float)[None, :] + STEN * float(it[1]["pt"]["rho"]) for it in sel])
+        F = np.asarray(obj.getB(kap.pos(P)) if field == "B" else obj.getH(kap.pos(P)), dtype=float).reshape(-1, 3)
+        F = kap.unvec(F).reshape(len(sel), 7, 3)
+        for (tid, inst, der), f in zip(sel, F):
+            fin = np.isfinite(f)
+            g = float(np.abs(f[fin]).max()) if fin.any() else 1.0
+            out.append(dict(dummy, tid=tid, kappa="id" if kap.identity else "rnd", inst=inst, der=der, nodes=7,
+                            obs={"q": [0, 0, 0], "fin": [True, True, True]},
+                            obs7={"q": [[max(-QCAP, min(QCAP, int(v))) for v in q8(row, g)] for row in f], "fin": fin.tolist()},
+                            raw={"field7": f.tolist(), "gross": g, "lam": kap.lam}))
+    for field in ("B", "H"):
+        sel = [it for it in items if it[1]["pt"]["field"] == field and it[1]["pt"]["kind"] != "harmonic"]
         if not sel:
             continue
         P = kap.pos(np.array([it[1]["pt"]["obs"] for it in sel], dtype=float))
@@ -255,7 +273,7 @@ def measure_points(magpy, obj, items, kap):
 SUBS_DEFAULT = {"flux": (1, 3), "circ": (1, 7, 810)}   # flux: uniform k x k panels per piece; circ: grading level per piece
 
 
-MAX_CALL_NODES = 300_000
+MAX_CALL_NODES = 150_000   # points per getB / getH call: bounds the memory of a worker (~0.3 GB incl. magpylib temporaries)
 
 
 def _eval_batch(obj, kap, law, geo, res):
@@ -305,7 +323,7 @@ def measure_group(magpy, scene, items, kap, orders=(16, 32), qerr_redo=1e-9):
                     X, G = integrand(inst, der, n, sub)
                     geo.append((tid, n, inst["ch"], X, G))
                     nn += len(X)
-                if nn >= MAX_CALL_NODES:  # bounded memory: one field call per ~3e5 points
+                if nn >= MAX_CALL_NODES:  # bounded memory
                     _eval_batch(obj, kap, law, geo, res)
                     geo, nn = [], 0
             if geo:
@@ -340,11 +358,14 @@ def measure_group(magpy, scene, items, kap, orders=(16, 32), qerr_redo=1e-9):
 
 
 TV_KEYS = ("tid", "prop", "kappa", "inst", "der", "meas", "meas8", "qerr", "qppm", "sub", "amp", "obs")
+NO_OBS7 = {"q": [], "fin": []}
 
 
 def tv_event(e):
     """the integer-only part of an event that the validator reads"""
-    return {k: e[k] for k in TV_KEYS}
+    d = {k: e[k] for k in TV_KEYS}
+    d["obs7"] = e.get("obs7", NO_OBS7)
+    return d
 
 
 def run_job(job):
